@@ -80,6 +80,14 @@ class EG:
             self.feats.add("mathml_function")
             x = self.expr(depth - 1)
             if d(st.integers(0, 2)) == 0:
+                # one table function inside another (code printers that rewrite a function rewrite its argument too)
+                f0 = d(st.sampled_from(sorted(FN1)))
+                u0 = ["/", x, ["+", ["num", 1.0], ["*", x, x]]]
+                if len(FN1[f0]) > 2:
+                    u0 = ["*", ["num", FN1[f0][2]], u0]
+                x = ["fn1", f0, u0 if FN1[f0][1] == 0.0 else ["+", ["num", FN1[f0][1]], u0]]
+                self.feats.add("mathml_function_nested")
+            if d(st.integers(0, 2)) == 0:
                 x = ["-", x, ["num", 3.0]]  # usually negative: u is still in [-0.5, 0.5]
                 self.feats.add("mathml_function_of_negative_value")
             u = ["/", x, ["+", ["num", 1.0], ["*", x, x]]]
@@ -861,7 +869,7 @@ def _examine(case: dict, ctx) -> Outcome:
 
 def floors(ctx) -> list[str]:
     c = []
-    for k in ["mode:plain", "mode:session", "mode:keywords", "mode:module_names", "function_definition", "rule_defined_stoichiometry", "compartment_size_not_1", "piecewise", "mathml_function", "mathml_function_of_negative_value", "logical_condition", "abs_of_exponential", "remainder", "function_calls_function", "function_listed_before_its_callee", "local_parameter", "local_parameter_hides_global"]:
+    for k in ["mode:plain", "mode:session", "mode:keywords", "mode:module_names", "function_definition", "rule_defined_stoichiometry", "compartment_size_not_1", "piecewise", "mathml_function", "mathml_function_nested", "mathml_function_of_negative_value", "logical_condition", "abs_of_exponential", "remainder", "function_calls_function", "function_listed_before_its_callee", "local_parameter", "local_parameter_hides_global"]:
         if ctx.classes.get(k, 0) < 5:
             c.append(f"class {k} only {ctx.classes.get(k, 0)}")
     return c
